@@ -260,22 +260,42 @@ Definition refs_ok (s : space) (defs : list defn) (boxes : list (id * nat)) (ret
        | None => 0
        end).
 
+(* lib.rs:717-737 (fix 40183ea): after ALL conversions, every NAMED entry this
+   call created (ids base..next_id: the definitions AND the inline / titled types
+   their conversions assigned) must have its own name, else Err(InvalidSchema).
+   Like c22ef06 nothing is rolled back; break_cycles and finalize do not run. *)
+Definition created_names (base : N) (s : space) : list name :=
+  flat_map (fun i => match lookup N.eqb i (entries s) with
+                     | Some (Named n _) => [n]
+                     | _ => []
+                     end) (range base (N.to_nat (next_id s - base))).
+Fixpoint has_dup (l : list name) : bool :=
+  match l with [] => false | a :: t => existsb (N.eqb a) t || has_dup t end.
+Definition created_dup (base : N) (s : space) : bool := has_dup (created_names base s).
+
 Definition run_call (s : space) (c : call) : space * id :=
   match c with
   | AddType scr => add_type s scr
   | AddRefs defs boxes ret =>
       match batch_dup defs with
-      | Some i => refs_err s defs (S i) []      (* rejected: definitions 0..i are inserted *)
-      | None => refs_ok s defs boxes ret
+      | Some i => refs_err s defs (S i) []      (* c22ef06: definitions 0..i are inserted *)
+      | None =>
+          if created_dup (next_id s) (convert_defs (reserve s defs) (next_id s) defs)
+          then refs_err s defs (List.length defs) []     (* 40183ea: ALL definitions are inserted *)
+          else refs_ok s defs boxes ret
       end
   | AddRefsErr defs done partial => refs_err s defs done partial
   end.
 
 (* does the call return Err? *)
-Definition call_err (c : call) : bool :=
+Definition call_err (s : space) (c : call) : bool :=
   match c with
   | AddType _ => false
-  | AddRefs defs _ _ => match batch_dup defs with Some _ => true | None => false end
+  | AddRefs defs _ _ =>
+      match batch_dup defs with
+      | Some _ => true
+      | None => created_dup (next_id s) (convert_defs (reserve s defs) (next_id s) defs)
+      end
   | AddRefsErr _ _ _ => true
   end.
 
@@ -286,7 +306,7 @@ Definition run_history (s : space) (h : list call) : space :=
 Fixpoint run_trace (s : space) (h : list call) : list (space * id * bool) :=
   match h with
   | [] => []
-  | c :: r => let sr := run_call s c in (sr, call_err c) :: run_trace (fst sr) r
+  | c :: r => let sr := run_call s c in (sr, call_err s c) :: run_trace (fst sr) r
   end.
 
 (* ---------- observations ---------- *)
